@@ -90,6 +90,9 @@ func (w wrapper) ListPrivateKeys(ctx context.Context) []KeyNameVersion {
 }
 
 func (w wrapper) NewPrivateKey(ctx context.Context, keyName string) (crypto.PublicKey, string, error) {
+	if err := w.validateKID(keyName); err != nil {
+		return nil, "", err
+	}
 	publicKey, version, err := w.wrappedBackend.NewPrivateKey(ctx, keyName)
 	if err != nil {
 		return nil, "", err
